@@ -25,5 +25,9 @@ def main(run):
     if want(run, 'P') or want(run, 'T'):
       with anchored(run, 'C04/P'):
         deductive(run)
+    if want(run, 'P'):
+      with anchored(run, 'C04/P:valence-abstraction'):
+        from contracts import valence
+        valence.run(run)
     bounded_part(run, 'C04')
     return FINISH
